@@ -913,6 +913,10 @@ def run(ctx):
     # ---------------- Box-Muller
     u1 = [0.0, 1e-12, 1e-10, 1e-7, 1e-5, 0.125, 0.5, 0.75, 1.0]
     u2 = [0.0, 0.0625, 0.125, 0.25, 1 / 3, 0.5, 0.625, 0.75, 0.9, 1.0]
+    # angles next to the zeros of sin (u2 = 0, 1/2, 1) and of cos (1/4, 3/4): an implementation that derives
+    # one trigonometric value from the other (sqrt(1 - c^2)) cancels there (seeded C20-26)
+    u2 += [1e-4, 1e-3, 0.25 - 1e-3, 0.25 + 1e-4, 0.5 - 1e-3, 0.5 - 1e-4, 0.5 + 1e-3, 0.75 - 1e-4, 0.75 + 1e-3,
+           1 - 1e-3, 1 - 1e-4]
     if ctx.thorough:
         u1 = sorted(set(u1 + [k / 64 for k in range(1, 64)]))
         u2 = sorted(set(u2 + [k / 48 for k in range(0, 49)]))
